@@ -1,5 +1,5 @@
 """C14 — results do not depend on what the process did before."""
-from .. import build, framework as fw, markers, trees
+from .. import build, framework as fw, markers, trees, pep440
 from ..sexp import S, unS, dump, pretty
 from . import c02, c10, c12, c20
 
@@ -407,8 +407,38 @@ def run(ctx):
         for rg in regs:
             m_ = sess.models.get(rg)
             sess_models.append(None if isinstance(m_, Exception) or m_ is None else m_)
+        # evaluation of every register of the final store: the crate's evaluate / evaluate_extras against eval_i / eval_extras_i on the model's ids
+        envs, impl_evals = [], []
+        try:
+            cand = markers.grid_envs(ctx.rng, keys, [m_ for m_ in sess_models if m_ is not None], 4)
+        except Exception:
+            cand = []
+        for env, ex in cand:
+            if not all(c.isdigit() or c == '.' for c in env['python_full_version'] + env['implementation_version'] + env['python_version']):
+                continue
+            rels = [[keys.spelling[k][1], [str(x) for x in pep440.release_of(env[k])]] for k in markers.VERSION_KEYS]
+            ss = [[idx, S(env[field])] for idx, field in keys.str.items()]
+            exn = [unS(sess.ask(['name', S(e)])[5][1]) for e in ex]
+            row = []
+            for rg in regs:
+                g = c02.eval_all(sess, rg, env, ex)
+                gx = sess.ask(['evalx', str(rg), [S(x) for x in ex]])
+                row.append([g[1] if g[0] == 'ok' else '?', gx[1] if gx[0] == 'ok' else '?'])
+            envs.append([rels, ss, [S(e) for e in exn]])
+            impl_evals.append((env, ex, row))
         sess.close()
-        out = fw.batch(build.DRIVER, [['runi', pv, pfv, msteps]])[0]
+        out = fw.batch(build.DRIVER, [['runi', pv, pfv, msteps, envs]])[0]
+        if out[0] == 'ok' and envs and isinstance(out[-1], list) and out[-1] and out[-1][0] == 'evals':
+            for (env, ex, row), mrow in zip(impl_evals, out[-1][1:]):
+                for n, (iv, mv) in enumerate(zip(row, mrow)):
+                    ctx.corr_cases += 1
+                    if '?' in iv:
+                        continue
+                    if list(mv) != iv:
+                        ctx.disagreement('m_eval_i / m_eval_extras_i ~ evaluate / evaluate_extras on the register of step %d' % n,
+                                         {'program': [dump(m)[:160] for m in msteps[:n + 1]], 'env': env, 'extras': ex}, dump(mv), dump(iv))
+                        break
+            out = out[:-1]
         ctx.evaluations += 1
         ctx.nontrivial(('replay', tuple(dump(m)[:40] for m in msteps)))
         if out[0] != 'ok' or len(out) - 1 != len(impl):
